@@ -91,11 +91,15 @@ def main():
             res['checks'] = {}
             for c in checks:
                 if '--via-repo' in flags:
+                    evf = os.path.join(VERIF, 'evidence', c + '.json')
+                    saved = open(evf).read() if os.path.exists(evf) else None
                     sh(['git', '-C', '/repo', 'apply', os.path.join(src, 'patch.diff')])
                     try:
                         res['checks'][c] = run_check(c, '/repo')
                     finally:
                         sh(['git', '-C', '/repo', 'checkout', '--', '.'])
+                        if saved is not None:          # the committed evidence describes the unchanged tree
+                            open(evf, 'w').write(saved)
                 else:
                     res['checks'][c] = run_check(c, wt)
             res['detected'] = any(v['exit'] != 0 and v['violation_lines'] for v in res['checks'].values())
